@@ -138,6 +138,24 @@ def run(ck):
                 meta.append(("read", inp, canon_read(back)))
                 if len(ck.samples) < 3:
                     ck.sample({k_: v for k_, v in inp.items() if k_ != "raw"})
+        # ---- sizes beyond every internal block size (1 MiB, 64 Ki elements, 8 KiB): records byte-identical, count right
+        for (minor, fmt, n) in ([(2, 0, 52500), (4, 6, 35100)] if ck.tier == "quick" else [(2, 0, 52500), (4, 6, 35100), (3, 3, 70000), (4, 10, 20000)]):
+            las = fio.make_las(ck.rng, minor, fmt, n, style="random")
+            raw = las.points.array.tobytes()
+            inp = {"kind": "large", "minor": minor, "fmt": fmt, "n": n, "bytes": len(raw)}
+            ck.case(("c01big", minor, fmt, n), nontrivial=True)
+            ck.count("large_case")
+            for kind in ("bytesio", "path"):
+                try:
+                    data = write_to(las, kind, tmpdir)
+                    back = laspy.read(io.BytesIO(data))
+                except Exception as e:
+                    ck.fail(f"large file ({len(raw)} bytes of records, {kind}): {type(e).__name__}: {e}", inp)
+                    continue
+                if len(back.points) != n or back.points.array.tobytes() != raw:
+                    got = back.points.array.tobytes()
+                    k0 = next((i for i in range(0, min(len(got), len(raw)), 4096) if got[i:i + 4096] != raw[i:i + 4096]), min(len(got), len(raw)))
+                    ck.fail(f"large file ({len(raw)} bytes of records, {kind}): read back {len(back.points)} records, first difference near byte {k0}", inp)
         # ---- the caller's object is untouched also when the writer has to rescale: the header's scaling was
         # re-bound after the records were built (finer, coarser, shifted, nearly equal), so the writer rescales a
         # temporary and must leave the caller's integers exactly as they were
